@@ -87,6 +87,7 @@ type Result struct {
 	Events   []Ev      `json:"events,omitempty"`
 	Depth    int       `json:"depth"` // frame depth at the end of the run (0 = base)
 	LineDep  []int     `json:"line_dep,omitempty"`
+	Parses   bool      `json:"parses,omitempty"` // (Events) the program text parses on its own
 	LC       []LineCol `json:"lc,omitempty"`
 	Toks     []Tok     `json:"toks,omitempty"`
 	LexErr   bool      `json:"lex_err,omitempty"`
@@ -180,12 +181,16 @@ type depthWriter struct {
 	depth   *int
 	lineDep []int
 	atStart bool
+	events  *[]Ev // when set, a Write event is logged at the start of every line
 }
 
 func (w *depthWriter) Write(p []byte) (int, error) {
 	for _, b := range p {
 		if w.atStart {
 			w.lineDep = append(w.lineDep, *w.depth)
+			if w.events != nil {
+				*w.events = append(*w.events, Ev{"Write", *w.depth, 0, ""})
+			}
 			w.atStart = false
 		}
 		if b == '\n' {
@@ -248,8 +253,11 @@ func execRun(j *Job) (res Result) {
 			}
 		}()
 		var w io.Writer = &out
-		if j.Depths {
+		if j.Depths || j.Events {
 			w = dw
+		}
+		if j.Events {
+			dw.events = &events
 		}
 		ev, err = lang.EvalProgram(string(j.Prog), files, j.Sels, w, j.Fuzzing)
 		classify(err, &res)
@@ -263,6 +271,15 @@ func execRun(j *Job) (res Result) {
 	if j.Events || j.IO {
 		res.Events = events
 		res.HasEv = true
+	}
+	if j.Events {
+		func() {
+			defer func() { recover() }()
+			lx := lang.NewLexer(string(j.Prog))
+			ps := lang.NewParser(&lx)
+			_, perr := ps.Parse()
+			res.Parses = perr == nil
+		}()
 	}
 	if ev != nil && (res.Class == "ok" || res.Class == "runtime" || res.Class == "json" || res.Class == "other") {
 		func() {
